@@ -5,7 +5,7 @@ From LSConc Require Import Clock Mach Inv Pres Pres2 Pres3 Pres4 Pres5 Pres6 Pre
 Lemma pres s t a s' : Inv s -> step s t a = Ok s' -> Inv s'.
 Proof.
   destruct a; eauto using pres_read, pres_write, pres_clone, pres_release, pres_free, pres_probe,
-    pres_spawn, pres_join, pres_fence, pres_readm, pres_lend, pres_readb, pres_joinb.
+    pres_spawn, pres_join, pres_fence, pres_readm, pres_lend, pres_readb, pres_joinb, pres_cloneb.
 Qed.
 
 Lemma T_init n u : T (init n) u = if Nat.eqb u 0 then nth 0 (ths (init n)) dth else dth.
